@@ -264,7 +264,7 @@ def as_enum(ex, v, ty):
     raise Unsupported("expected enum, got %s" % type(v).__name__)
 
 
-@model(r"<(Result|Option)<.*> as Try>::branch$")
+@model(r"<(?:std::(?:result|option)::|core::(?:result|option)::)?(Result|Option)<.*> as Try>::branch$")
 def m_try_branch(ex, st, callee, args, dty, m):
     v = as_enum(ex, args[0], m.group(1))
     good = "Ok" if m.group(1) == "Result" else "Some"
@@ -279,7 +279,7 @@ def m_try_branch(ex, st, callee, args, dty, m):
     return ("__fork__", [(enum_is(ex, v, good), cont()), (enum_is(ex, v, bad), brk())])
 
 
-@model(r"<(Result|Option)<.*> as FromResidual<.*>>::from_residual$")
+@model(r"<(?:std::(?:result|option)::|core::(?:result|option)::)?(Result|Option)<.*> as FromResidual<.*>>::from_residual$")
 def m_from_residual(ex, st, callee, args, dty, m):
     v = args[0]
     if m.group(1) == "Option":
@@ -565,6 +565,29 @@ def m_vec_new(ex, st, callee, args, dty, m):
     return Seq([], t)
 
 
+@model(r"Vec::<(.*)>::remove$")
+def m_vec_remove(ex, st, callee, args, dty, m):
+    r, idx = args
+    v = deref(ex, r)
+    if not isinstance(v, Seq) or not isinstance(idx, I):
+        return NotImplemented
+    i = z3.simplify(idx.bv)
+    n = len(v.items)
+
+    def take(ex_, st_, arg):
+        ref, k = arg
+        seq = deref(ex_, ref)
+        return seq.items.pop(k)
+    if z3.is_bv_value(i):
+        k = i.as_long()
+        if k >= n:
+            return PathEnd("panic", "Vec::remove index %d out of bounds (len %d)" % (k, n))
+        return v.items.pop(k)
+    alts = [(idx.bv == k, ("__thunk__", take, (r, k))) for k in range(n)]
+    alts.append((z3.UGE(idx.bv, n), PathEnd("panic", "Vec::remove index out of bounds (len %d)" % n)))
+    return ("__fork__", alts)
+
+
 @model(r"Vec::<(.*)>::push$")
 def m_vec_push(ex, st, callee, args, dty, m):
     r = args[0]
@@ -834,6 +857,27 @@ def m_from_primitive(ex, st, callee, args, dty, m):
     return ("__fork__", [(valid, mk_some(dty, ev)), (z3.Not(valid), mk_none(dty))])
 
 
+@model(r"Vec::<(.*)>::append$")
+def m_vec_append(ex, st, callee, args, dty, m):
+    v = deref(ex, args[0])
+    o = deref(ex, args[1])
+    if isinstance(v, Bytes) and isinstance(o, Bytes):
+        k = z3.BitVec("ak!%d" % next(ex.fresh_counter), 64)
+        v.arr = z3.Lambda([k], z3.If(z3.ULT(k, v.len.bv), z3.Select(v.arr, k), z3.Select(o.arr, k - v.len.bv)))
+        v.len = I(z3.simplify(v.len.bv + o.len.bv))
+        o.len = I(bv(0, 64))
+        return UNIT
+    if isinstance(v, Seq) and isinstance(o, Seq):
+        v.items.extend(o.items)
+        o.items = []
+        return UNIT
+    if isinstance(args[0], Ref) and isinstance(o, Opaque):
+        # appended list of unknown length: the result is a list of unknown length and content
+        ex.set_path(args[0].cell, args[0].path, Opaque("appended!%d" % next(ex.fresh_counter), "Vec<%s>" % (m.group(1) or "?")))
+        return UNIT
+    return NotImplemented
+
+
 @model(r"Vec::<u8>::extend::<.*>$|Vec::<u8>::extend_from_slice$|<Vec<u8> as Extend<&u8>>::extend::<.*>$|<Vec<u8> as Extend<u8>>::extend::<.*>$")
 def m_vec_extend(ex, st, callee, args, dty, m):
     v = deref(ex, args[0])
@@ -978,6 +1022,88 @@ def m_iter_adaptor(ex, st, callee, args, dty, m):
                     pb.stmts[0] = ("assign", ("local", "_0"), ("variant", "Option::Some", [("copy", ("deref", ("local", "_%d" % (i + 2))))]))
         return res
     return iter_driver(ex, kind, items, args[1], dty)
+
+
+
+# ---------------------------------------------------------------- filter adaptor (lazy: each next() searches on from the current position)
+@model(r"<(?:std|core)::slice::Iter(?:Mut)?<'_, .*> as Iterator>::filter::<.*>$")
+def m_iter_filter(ex, st, callee, args, dty, m):
+    it = args[0]
+    base = deref(ex, it) if isinstance(it, Ref) else it
+    if not (isinstance(base, Agg) and base.name == "SeqIter"):
+        return NotImplemented
+    return Agg("struct", "FilterIter", [base, args[1]])
+
+
+@model(r"<(?:std::iter::|core::iter::)?Filter<.*> as IntoIterator>::into_iter$")
+def m_filter_into_iter(ex, st, callee, args, dty, m):
+    return args[0] if isinstance(args[0], Agg) and args[0].name == "FilterIter" else NotImplemented
+
+
+@model(r"<(?:std::iter::|core::iter::)?Filter<.*> as Iterator>::next$")
+def m_filter_next(ex, st, callee, args, dty, m):
+    fref = args[0]
+    f = deref(ex, fref)
+    if not (isinstance(f, Agg) and f.name == "FilterIter"):
+        return NotImplemented
+    inner, closure = f.fields
+    seq_ref, pos = inner.fields
+    seq = deref(ex, seq_ref)
+    if not isinstance(seq, Seq):
+        return NotImplemented
+    cbody = ex.closure_body(closure)
+    if cbody is None:
+        return NotImplemented
+    c, p = (seq_ref.cell, seq_ref.path) if isinstance(seq_ref, Ref) else (Cell(seq), ())
+    vv = ex.get_path(c, p)
+    while isinstance(vv, Ref):
+        c, p = vv.cell, vv.path
+        vv = ex.get_path(c, p)
+    start = as_int(pos)
+    items = [Ref(c, p + (("i", u64(i)),), getattr(seq_ref, "mut", False)) for i in range(start, len(seq.items))]
+    n = len(items)
+    _DRIVER_COUNT[0] += 1
+    k = _DRIVER_COUNT[0]
+    b = _MIR.Body("__iter_filter_next_%d" % k, "synthetic")
+    b.args = [("_1", "env"), ("_F", "filter")] + [("_%d" % (i + 2), "item") for i in range(n)]
+    b.locals = dict(b.args)
+    b.locals["_0"] = dty or "Option"
+    res = "_%d" % (n + 2)
+    b.locals[res] = "bool"
+    tok_call = "__closure_call__%d" % k
+    tok_done = "__filter_done__%d" % k
+
+    def done(ex_, st_, callee_, a, dt, mm, start=start, n=n, dty=dty):
+        fil = deref(ex_, a[0])
+        idx = as_int(a[1])
+        fil.fields[0].fields[1] = u64(start + min(idx + 1, n))
+        if idx >= n:
+            return mk_none(dty)
+        return mk_some(dty, a[2])
+    ex.models = [(re.compile(re.escape(tok_call) + "$"), lambda ex_, st_, callee_, a, dt, mm, cb=cbody: ("__inline__", cb, a)),
+                 (re.compile(re.escape(tok_done) + "$"), done)] + list(ex.models)
+
+    def blk(name):
+        bb = _MIR.Block(name, False)
+        b.blocks[name] = bb
+        return bb
+    for i in range(n):
+        bb = blk("bb%d" % (2 * i))
+        bb.term = ("call", ("local", res), tok_call, [("copy", ("local", "_1")), ("copy", ("local", "_%d" % (i + 2)))], {"return": "bb%d" % (2 * i + 1)})
+        chk = blk("bb%d" % (2 * i + 1))
+        chk.term = ("switch", ("copy", ("local", res)), [("0", "bb%d" % (2 * i + 2)), ("otherwise", "bbP%d" % i)])
+        pb = blk("bbP%d" % i)
+        pb.term = ("call", ("local", "_0"), tok_done, [("copy", ("local", "_F")), ("const", "%d_usize" % i), ("copy", ("deref", ("local", "_%d" % (i + 2))))], {"return": "bbR"})
+    end = blk("bb%d" % (2 * n))
+    end.term = ("call", ("local", "_0"), tok_done, [("copy", ("local", "_F")), ("const", "%d_usize" % n), ("const", "()")], {"return": "bbR"})
+    blk("bbR").term = ("return",)
+    by_ref = cbody.args[0][1].lstrip().startswith("&")
+    env = closure
+    if by_ref and not isinstance(closure, Ref):
+        env = Ref(Cell(closure), (), True)
+    if not by_ref and isinstance(closure, Ref):
+        env = deref(ex, closure)
+    return ("__inline__", b, [env, fref] + [Ref(Cell(it), ()) for it in items])
 
 
 # ---------------------------------------------------------------- more containers: VecDeque, HashMap iteration / entry API, Ord::cmp
